@@ -53,7 +53,15 @@ ASSUMPTIONS = [
 
 TOLS = [0.0, 1e-9, 1e-3]
 GRID = 0.25
-OUT_SPECS = [("y", 2), ("z", 1)]
+OUT_SPECS = [("y", 2), ("z", 1)]  # plus ("s", 1), a float-typed scalar output, when cfg["scalar_out"] (set per case)
+_BASE_OUT_SPECS = [("y", 2), ("z", 1)]
+_SCALAR = [False]
+
+
+def set_out_specs(cfg) -> None:
+    """Select the outputs of the harness discipline for the current case."""
+    _SCALAR[0] = bool(cfg.get("scalar_out"))
+    OUT_SPECS[:] = _BASE_OUT_SPECS + ([("s", 1)] if _SCALAR[0] else [])
 CACHE_TYPES = {
     "none": "",
     "simple": "SimpleCache",
@@ -72,7 +80,7 @@ def _op(n_reopen=1):
         "again": st.sampled_from([False, False, True]),
         "base": st.integers(0, 3),
         "pert": st.sampled_from([0, 0, 0, 1, 1, 2, 3]),
-        "mask": st.sampled_from([7, 7, 7, 0, 1, 2, 3, 4, 5, 6]),
+        "mask": st.sampled_from([15, 15, 15, 0, 0, 1, 2, 3, 4, 5, 6, 7, 8, 11, 13, 14]),
         "held": st.booleans(),
         "all": st.booleans(),
         "exe": st.booleans(),
@@ -104,6 +112,9 @@ def histories(caches, n_reopen=1):
         "weak_hash": st.sampled_from([False, False, False, True]),
         "node": st.sampled_from(["n", "a/b"]),
         "defaults": _base(),
+        "scalar_out": st.booleans(),      # a float-typed (non-array) output
+        "a_default": st.booleans(),       # every input has a default: execute({}) is reachable
+        "rev_defaults": st.booleans(),    # defaults inserted in the reverse of the grammar order
     })
     return st.fixed_dictionaries({
         "cfg": cfg,
@@ -115,7 +126,7 @@ def histories(caches, n_reopen=1):
 # --------------------------------------------------------------------------- the body and its reference
 def in_specs(cfg):
     """(name, size, has_default) of the inputs."""
-    specs = [("a", 2, False), ("b", 1, True)]
+    specs = [("a", 2, bool(cfg.get("a_default"))), ("b", 1, True)]
     if cfg["n_in"] == 3:
         specs.append(("c", 2, True))
     if cfg["self_coupled"]:
@@ -135,7 +146,10 @@ def body(inp):
         a[0] * a[1] + 3.0 * b[0] * b[0] + c[1] + 0.25 * y[0] * y[1],
     ])
     z = np.array([7.0 * a[0] + 11.0 * a[1] + 13.0 * b[0] + 17.0 * c[0] + 19.0 * c[1] + 23.0 * y[0] + 29.0 * y[1] + a[0] * a[0]])
-    return {"y": y_out, "z": z}
+    out = {"y": y_out, "z": z}
+    if _SCALAR[0]:
+        out["s"] = float(a[0] * a[0] + 2.0 * b[0])
+    return out
 
 
 def body_jac(inp):
@@ -146,12 +160,18 @@ def body_jac(inp):
         "y": {"a": np.array([[1.0, 2.0], [a[1], a[0]]]), "b": np.array([[1.0], [6.0 * b[0]]])},
         "z": {"a": np.array([[7.0 + 2.0 * a[0], 11.0]]), "b": np.array([[13.0]])},
     }
+    if _SCALAR[0]:
+        jac["s"] = {"a": np.array([[2.0 * a[0], 0.0]]), "b": np.array([[2.0]])}
     if "c" in inp:
         jac["y"]["c"] = np.array([[1.0, -1.0], [0.0, 1.0]])
         jac["z"]["c"] = np.array([[17.0, 19.0]])
+        if _SCALAR[0]:
+            jac["s"]["c"] = np.zeros((1, 2))
     if "y" in inp:
         jac["y"]["y"] = np.array([[0.5, 0.0], [0.25 * y[1], 0.25 * y[0]]])
         jac["z"]["y"] = np.array([[23.0, 29.0]])
+        if _SCALAR[0]:
+            jac["s"]["y"] = np.zeros((1, 2))
     return jac
 
 
@@ -179,8 +199,13 @@ def harness_class(grammar: str):
             self.log = log  # shared list of keys at which the body ran
             self.in_names = [s[0] for s in in_specs(cfg)]
             self.io.input_grammar.update_from_data({n: np.zeros(size) for n, size, _ in in_specs(cfg)})
-            self.io.output_grammar.update_from_data({n: np.zeros(size) for n, size in OUT_SPECS})
-            self.io.input_grammar.defaults = {n: np.array(v, dtype=float) for n, v in defaults.items()}
+            self.io.output_grammar.update_from_data({n: np.zeros(size) for n, size in _BASE_OUT_SPECS})
+            if cfg.get("scalar_out"):
+                self.io.output_grammar.update_from_types({"s": float})
+            items = list(defaults.items())
+            if cfg.get("rev_defaults"):
+                items.reverse()
+            self.io.input_grammar.defaults = {n: np.array(v, dtype=float) for n, v in items}
             self.n_jac = 0
 
         def _run(self, input_data):
@@ -484,8 +509,8 @@ class Machine:
             ctx.check(sorted(got) == exp_names, "outputs", f"returned data has names {sorted(got)}, expected {exp_names}", step=step)
             matches = [c for c in cands if all(same(got[n], body(c)[n]) for n, _ in OUT_SPECS)]
             ctx.check(bool(matches), "outputs",
-                      f"returned outputs { {n: got[n].tolist() for n, _ in OUT_SPECS} } for input { {n: x[n].tolist() for n in x} }; "
-                      f"the body gives { {n: v.tolist() for n, v in ref_out.items()} }"
+                      f"returned outputs { {n: np.asarray(got[n]).tolist() for n, _ in OUT_SPECS} } for input { {n: x[n].tolist() for n in x} }; "
+                      f"the body gives { {n: np.asarray(v).tolist() for n, v in ref_out.items()} }"
                       + (f" ({len(cands) - 1} earlier inputs within the tolerance do not match either)" if self.tol else ""),
                       step=step, cache=self.kind, tolerance=self.tol)
             if not any(c is x for c in matches):
@@ -587,8 +612,11 @@ class Machine:
             if key_of(inputs) not in self.seen:
                 self.flags["sweep_entry_input_never_requested"] += 1
                 continue
-            self.call({"kind": "exec", "passed": {n: np.asarray(inputs[n], dtype=float).tolist() for n in self.names},
-                       "held": False, "modifies": False, "partial": False, "sweep": True})
+            passed = {n: np.asarray(inputs[n], dtype=float).tolist() for n in self.names}
+            self.call({"kind": "exec", "passed": passed, "held": False, "modifies": False, "partial": False, "sweep": True})
+            # ... and linearised: a Jacobian stored in the wrong entry shows up here
+            self.call({"kind": "lin", "passed": passed, "held": False, "modifies": False, "partial": False, "sweep": True,
+                       "all": True, "exe": True})
             self.flags["sweep_requests"] += 1
 
 
@@ -614,6 +642,7 @@ def case_transparency(p, ctx):
     import gemseo.caches.base_full_cache as bfc
 
     cfg = p["cfg"]
+    set_out_specs(cfg)
     steps, inplace = plan(p)
     in_p6_class = cfg["cache"] == "memory" and inplace
     degrade = in_p6_class and ctx.known(P6)
@@ -649,6 +678,12 @@ def case_transparency(p, ctx):
             ctx.cls("sparse_jacobian")
         if cfg["self_coupled"]:
             ctx.cls("self_coupled_variable")
+        if cfg.get("scalar_out"):
+            ctx.cls("float_typed_scalar_output")
+        if cfg.get("a_default") and any(st_["kind"] in ("exec", "lin") and not st_["passed"] for st_ in steps):
+            ctx.cls("history_with_fully_defaulted_call")
+        if cfg.get("rev_defaults"):
+            ctx.cls("defaults_in_reverse_grammar_order")
         if cfg["weak_hash"] and cfg["cache"] in FULL:
             ctx.cls("colliding_hash")
         inplace_done = f["inplace_modified_caller_array"] > 0
